@@ -1,4 +1,5 @@
 import CandidModel.Proofs.Wire
+import CandidModel.Proofs.ValRound
 /-
   C03 — Every encoded message is well-formed per the binary format of the spec.
   `Wire.serVal` / `Wire.encodeArgs` mirror the encoder (ser.rs, value.rs); `Wire.decPrim` / `Wire.decVal` /
@@ -87,5 +88,36 @@ theorem length_roundtrip (n : Nat) (r : Bytes) (h : n < 2 ^ 63) : readLenDe (ule
 
 /-- `null` and `reserved` occupy no bytes -/
 theorem null_roundtrip (r : Bytes) : decPrim .null ([] ++ r) = .ok (.null, r) := rfl
+
+/-- **The reader inverts the writer at every type**: in every environment, for every type (composite, named,
+recursive) and every canonical value of it — labels and variant index as the type gives them, numbers within
+their width, lengths within what a length prefix carries — the writer produces bytes, and the specification's
+reader at that type returns exactly that value and leaves exactly what followed. -/
+theorem reader_inverts_writer_at_every_type (env : Env) (fuel : Nat) (v : Val) (t : Ty)
+    (hc : canon env fuel v t = true) :
+    ∃ bs, serVal fuel v = .ok bs ∧ ∀ r, decVal env fuel t (bs ++ r) = .ok (v, r) :=
+  value_roundtrip env fuel v t hc
+
+/-- whatever nesting budget the writer ran with -/
+theorem reader_inverts_writer_any_budget (env : Env) (fuel n : Nat) (v : Val) (t : Ty) (bs r : Bytes)
+    (hc : canon env fuel v t = true) (hs : serVal n v = .ok bs) : decVal env fuel t (bs ++ r) = .ok (v, r) :=
+  decVal_ser env fuel v t n bs r hc hs
+
+/-- distinct canonical values of a type never share an encoding -/
+theorem writer_is_injective (env : Env) (fuel : Nat) (v1 v2 : Val) (t : Ty) (n1 n2 : Nat) (bs : Bytes)
+    (h1 : canon env fuel v1 t = true) (h2 : canon env fuel v2 t = true)
+    (s1 : serVal n1 v1 = .ok bs) (s2 : serVal n2 v2 = .ok bs) : v1 = v2 :=
+  serVal_injective env fuel v1 v2 t n1 n2 bs h1 h2 s1 s2
+
+/-- argument sequences: the concatenated encodings read back as the sequence of values -/
+theorem argument_sequence_roundtrip (env : Env) (fuel : Nat) (ts : List Ty) (vs : List Val) (bss : List Bytes) (r : Bytes)
+    (hl : vs.length = ts.length) (hc : ∀ p ∈ vs.zip ts, canon env fuel p.1 p.2 = true)
+    (hs : mapOutcomes (serVal fuel) vs = .ok bss) : decArgs env fuel ts (bss.flatten ++ r) = .ok (vs, r) :=
+  decArgs_ser env fuel ts vs bss r hl hc hs
+
+/-- the hypothesis is satisfiable on a recursive type: `type L = opt record { 0 : nat8; 1 : L }`, the list `[7, 9]` -/
+example : canon [("L", .opt (.record (.cons (.id 0) (.prim .nat8) (.cons (.id 1) (.var "L") .nil))))] 10
+    (.opt (.record [(.id 0, .nat8 7), (.id 1, .opt (.record [(.id 0, .nat8 9), (.id 1, .none)]))])) (.var "L") = true := by
+  decide
 
 end Candid.Props.C03
